@@ -16,12 +16,12 @@ NOT_APPLICABLE = {}
 CHECKS = {
     "C18": {
         "technique": "TLA+ spec CommentLexer (mode machine per rune, pinned language tables): TLC enumerates every token string up to a bound per language class, each replayed into the real Parse/ChunkIterator; seeded long programs validated by TLC",
-        "text": "The reference lexer of the property is an explicit TLA+ mode machine; TLC checks its own laws (order, line bounds, chunk law) and enumerates all inputs <= 5 tokens (6 thorough) over delimiter-rich alphabets for all 21 behaviour classes covering the 49 Language values; the real parser must agree on every one, for every language of the class, in ASCII and multi-byte concretisations. Long seeded programs are validated by TLC against the same spec.",
-        "note": "language tables are a pinned snapshot; unterminated trailing lexemes may be dropped or reported; invalid UTF-8 not enumerated; 'consecutive lines' read as start lines differing by <= 1 (pinned by the repository's own test).",
+        "text": "The reference lexer of the property is an explicit TLA+ mode machine; TLC checks its own laws (order, line bounds, chunk law) and enumerates all inputs <= 5 tokens (6 thorough) over delimiter-rich alphabets for all 21 behaviour classes covering the 49 Language values; the real parser must agree on every one, for every language of the class, in ASCII and multi-byte concretisations. Long seeded programs are validated by TLC against the same spec. Letters are concretised as ASCII, two-byte, U+FFFD and an invalid byte; a consumer that writes into every chunk it receives.",
+        "note": "language tables are a pinned snapshot; unterminated trailing lexemes may be dropped or reported; invalid UTF-8 as one letter class; 'consecutive lines' read as start lines differing by <= 1 (pinned by the repository's own test).",
     },
     "C20": {
         "technique": "TLA+ specs Containers/PQueue: TLC model check + every TLC-enumerated behaviour replayed into the real types + recorded traces validated by TLC",
-        "text": "TLC explores the set algebra spec and the as-built heap transcription exhaustively for small universes; every generated behaviour (all ops from every abstract state, depth 2; deep single-object runs; queue runs of length 5) is replayed on StringSet, IntSet and pq.Queue with the state compared white-box after each step; seeded long runs are validated event by event against the specs.",
+        "text": "TLC explores the set algebra spec and the as-built heap transcription exhaustively for small universes; every generated behaviour (all ops from every abstract state, depth 2; deep single-object runs; queue runs of length 5) is replayed on StringSet, IntSet and pq.Queue with the state compared white-box after each step; seeded long runs are validated event by event against the specs. Queues that grow to 5000 elements and drain are checked by the driver after every operation; the empty string and negative ints are elements like any other.",
         "note": "container/heap is transcribed as built; exhaustive only within the stated bounds (|U|=2 for generation, 4 ids x 3 priorities), long runs are sampled.",
     },
 }
@@ -59,7 +59,7 @@ CHECKS.update({
             "text": "TLC checks the fixpoint on every small input, the real Normalize output is compared byte for byte with the spec's renderer on every enumerated input, and on real documents tokens of Normalize(in) vs in and Match results are validated as Pair events.",
             "note": "open findings: token ending in a hyphen at a line end; cleaned line that reads as a notice."},
     "C12": {"technique": "TLA+ spec V2Load (intended semantics) enumerates trees x spellings x histories (fresh / keys registered before / reloaded after edits); each materialised on disk and loaded by the real LoadLicenses; assets directory and DefaultClassifier compared by Match results",
-            "text": "All sets of <= 2 (3) files from 104 candidates (depth 1..5, four suffix kinds) x 9 spellings with a fresh classifier, plus two histories; names with a leading dot; CRLF / BOM / invalid bytes in the files; corpus keys and Match equivalence with AddContent; LoadLicenses(assets) under 4 spellings and DefaultClassifier on all 431 documents + scenarios.",
+            "text": "All sets of <= 2 (3) files from 104 candidates (depth 1..5, four suffix kinds) x 9 spellings with a fresh classifier, plus two histories; names with a leading dot; CRLF / BOM / invalid bytes in the files; corpus keys and Match equivalence with AddContent; LoadLicenses(assets) under 4 spellings and DefaultClassifier on all 431 documents + scenarios. Histories with emptied files and with symbolic links as corpus files; directories that do not exist, a file given as the directory, more files than descriptors.",
             "note": "exhaustive within the candidate set."},
 })
 
@@ -67,8 +67,8 @@ CHECKS.update({
     "C13": {"technique": "TLA+ generator/contract V1Classify + V1Contract: TLC-enumerated cases and seeded cases replayed into the real stringclassifier (crash-isolated, resumable), call/return events validated by TLC (TraceV1: ExactFound, ConfRange, InBounds, NearestSelf, NoPanic)",
             "text": "Every case of 1-2 known values over words / punctuation / metacharacters with copies in context (23 k quick, 71 k+ thorough) in three concretisations, plus seeded values up to 80 tokens over five vocabularies incl. invalid UTF-8; a process death is attributed to the journalled case.",
             "note": "token and character alphabets (the latter with blank-edged values, glued and abutting copies); the fuzzy path (searchset heuristics) is checked against its contract only."},
-    "C14": {"technique": "TLA+ protocol spec V1Classifier (lazy search-set) model-checked incl. liveness + hook-event histories of concurrent calls validated by TLC with vector-clock happens-before (TraceConc) + results vs sequential results (TraceV1); Go race detector as second sensor",
-            "text": "TLC explores all interleavings of 3 callers x 2 values of the repaired protocol (and refutes the check-outside-lock variant); on the real code every lock operation, access and fork is an event and TLC recomputes happens-before, rejecting the history at the first unordered conflicting access.",
+    "C14": {"technique": "TLA+ protocol spec V1Classifier (lazy search-set) model-checked incl. liveness + hook-event histories of concurrent calls validated by TLC with vector-clock happens-before (TraceConc) + results vs sequential results (TraceV1); Go race detector as second sensor; unbounded companion V1ClassifierProof checked by tlapm (NoRace, SetWhenUsed, LazyOnce for any number of callers and values)",
+            "text": "TLC explores all interleavings of 3 callers x 2 values of the repaired protocol (and refutes the check-outside-lock variant); on the real code every lock operation, access and fork is an event and TLC recomputes happens-before, rejecting the history at the first unordered conflicting access. AddValue is started at every lock release of a running call (hooks as scheduler gates); 256 calls released together run under a watchdog (a hang is a violation).",
             "note": "25 (150) rounds of 4 (8) callers; License with precomputed sets covered through results and the race detector."},
     "C15": {"technique": "TLA+ specs V1Archive (entry pairing, RoundTrip) with every small ordered file set archived and loaded for real and V1ArchiveWriter (buffering compressor over a destination that fails; success means written) bound by failing destinations under the real ArchiveLicenses + recorded NearestMatch/MultipleMatch answers of an archive-loaded and a directly built License validated by TLC (TraceV1 memo equality, key sets, normalised values)",
             "text": "Seeded subsets/orderings of the shipped licenses plus synthetic files go through the real ArchiveLicenses and New(ArchiveBytes); both classifiers must hold the same keys and values and answer 16 (60) queries per round identically.",
@@ -82,8 +82,8 @@ CHECKS.update({
 })
 
 CHECKS.update({
-    "C09": {"technique": "TLA+ ownership spec V2Concurrent (NoRace, SeqEquivalent; sharing the corpus array with the diff library refuted) and V2Backend (result list of the CLI backend under overlapping runs; a lock per run refuted) model-checked + concurrent Match histories validated by TLC against the sequential results (TraceV2 memo) + race detector as sensor for accesses inside the dependency",
-            "text": "8 (64) goroutines match 15 inputs that make them score the same documents concurrently; every concurrent result must equal the sequential one bit for bit; the diffcall hook shows whether corpus storage is handed to go-diff; data races are observed by the race detector; adjacent sub-slices of one buffer as inputs; overlapping ClassifyLicenses runs on one backend must append R times the entries of one run.",
+    "C09": {"technique": "TLA+ ownership spec V2Concurrent (NoRace, SeqEquivalent; sharing the corpus array with the diff library refuted) and V2Backend (result list of the CLI backend under overlapping runs; a lock per run refuted) model-checked + concurrent Match histories validated by TLC against the sequential results (TraceV2 memo) + race detector as sensor for accesses inside the dependency; unbounded companion V2BackendProof checked by tlapm",
+            "text": "8 (64) goroutines match 15 inputs that make them score the same documents concurrently; every concurrent result must equal the sequential one bit for bit; the diffcall hook shows whether corpus storage is handed to go-diff; data races are observed by the race detector; adjacent sub-slices of one buffer as inputs; overlapping ClassifyLicenses runs on one backend must append R times the entries of one run. A helper process makes its very first calls concurrently on an empty classifier (cold start), also under the race detector.",
             "note": "the write happens inside a dependency where no hook can sit; the race detector's report is the observation, the model supplies the ownership rule and the schedule."},
     "C19": {"technique": "TLA+ specs V2Pool (token pool, WaitGroup, mutex-protected append; liveness; three refuted variants), V2CLIScope (expandFiles) and V2CLILines (readFileLines) model-checked, every enumerated scope / quoting case replayed into the real functions + real CLI runs validated by TLC (TraceCLI.CLIReturn) against in-process Match",
             "text": "TLC explores all interleavings of 3 files / 2 tasks: no lost append, bounded concurrency, no send on the closed channel, termination; the binary built from the current tree (and a -race build) runs over seeded trees x flags x -tasks and its stdout, JSON and exit status must be exactly what Match returns for the files' bytes.",
